@@ -68,7 +68,17 @@ pub struct Case {
     pub exact: bool,
     /// consume with until_exhausted() instead of next() (finite sources only)
     pub drain: bool,
+    /// the hz-pair entry points are called with (p * hz_base, hz_base); p * hz_base is exact for the generated parameters
+    #[serde(default = "default_hz_base")]
+    pub hz_base: u32,
 }
+
+fn default_hz_base() -> u32 {
+    1024
+}
+
+/// target rates for the hz-pair entry points: a power of two, small odd numbers, common and uncommon audio rates
+pub const HZ_BASES: [u32; 14] = [1024, 1, 3, 7, 49, 100, 441, 1000, 11000, 22000, 44000, 44100, 48000, 96000];
 
 const SCALE_BITS: u32 = 64;
 
@@ -124,10 +134,10 @@ impl RF for u8 {
 }
 
 /// effective ratio of parameter p under the constructor (the documented formula, one f64 op)
-fn ratio_of(ctor: Ctor, p: f64) -> f64 {
+fn ratio_of(ctor: Ctor, p: f64, base: f64) -> f64 {
     match ctor {
         Ctor::ScalePlayback | Ctor::SignalScaleHz | Ctor::MulHz | Ctor::SetPlayback => p,
-        Ctor::FromHzToHz | Ctor::SignalFromHz | Ctor::SetHzToHz => (p * 1024.0) / 1024.0,
+        Ctor::FromHzToHz | Ctor::SignalFromHz | Ctor::SetHzToHz => (p * base) / base,
         Ctor::ScaleSampleHz | Ctor::SetSampleHz => 1.0 / p,
     }
 }
@@ -261,7 +271,7 @@ where
 {
     ensure!(!c.params.is_empty(), "bad case: no ratio parameter");
     let params: Vec<f64> = c.params.iter().map(|b| f64::from_bits(*b)).collect();
-    let ratios: Vec<f64> = params.iter().map(|p| ratio_of(c.ctor, *p)).collect();
+    let ratios: Vec<f64> = params.iter().map(|p| ratio_of(c.ctor, *p, c.hz_base as f64)).collect();
     for (p, r) in params.iter().zip(&ratios) {
         ensure!(p.is_finite() && *p > 0.0 && r.is_finite() && *r > 0.0, "bad case: ratio must be > 0");
     }
@@ -282,6 +292,8 @@ where
     let ctl_counters = Counters::new();
     let mut src: FnProbe<F> = FnProbe::new(c.src_len, F::at as fn(u64) -> F, counters.clone());
     let p0 = params[0];
+    let hzb = c.hz_base as f64;
+    ensure!(c.hz_base >= 1, "bad case: target rate must be > 0");
     fn ctl(_: u64) -> f64 {
         0.0
     }
@@ -300,10 +312,10 @@ where
             let i = Floor::new(src.next());
             match ctor {
                 Ctor::ScalePlayback => Conv::FloorC(Converter::scale_playback_hz(src, i, p0)),
-                Ctor::FromHzToHz => Conv::FloorC(Converter::from_hz_to_hz(src, i, p0 * 1024.0, 1024.0)),
+                Ctor::FromHzToHz => Conv::FloorC(Converter::from_hz_to_hz(src, i, p0 * hzb, hzb)),
                 Ctor::ScaleSampleHz => Conv::FloorC(Converter::scale_sample_hz(src, i, p0)),
                 Ctor::SignalScaleHz => Conv::FloorC(src.scale_hz(i, p0)),
-                Ctor::SignalFromHz => Conv::FloorC(src.from_hz_to_hz(i, p0 * 1024.0, 1024.0)),
+                Ctor::SignalFromHz => Conv::FloorC(src.from_hz_to_hz(i, p0 * hzb, hzb)),
                 Ctor::MulHz => Conv::FloorM(src.mul_hz(i, FnProbe::new(None, ctl_at as fn(u64) -> f64, ctl_counters.clone()))),
                 _ => Conv::FloorC(Converter::scale_playback_hz(src, i, 1.0)),
             }
@@ -314,10 +326,10 @@ where
             let i = Linear::new(a0, a1);
             match ctor {
                 Ctor::ScalePlayback => Conv::LinearC(Converter::scale_playback_hz(src, i, p0)),
-                Ctor::FromHzToHz => Conv::LinearC(Converter::from_hz_to_hz(src, i, p0 * 1024.0, 1024.0)),
+                Ctor::FromHzToHz => Conv::LinearC(Converter::from_hz_to_hz(src, i, p0 * hzb, hzb)),
                 Ctor::ScaleSampleHz => Conv::LinearC(Converter::scale_sample_hz(src, i, p0)),
                 Ctor::SignalScaleHz => Conv::LinearC(src.scale_hz(i, p0)),
-                Ctor::SignalFromHz => Conv::LinearC(src.from_hz_to_hz(i, p0 * 1024.0, 1024.0)),
+                Ctor::SignalFromHz => Conv::LinearC(src.from_hz_to_hz(i, p0 * hzb, hzb)),
                 Ctor::MulHz => Conv::LinearM(src.mul_hz(i, FnProbe::new(None, ctl_at as fn(u64) -> f64, ctl_counters.clone()))),
                 _ => Conv::LinearC(Converter::scale_playback_hz(src, i, 1.0)),
             }
@@ -382,7 +394,7 @@ where
             Conv::FloorC(x) => {
                 match c.ctor {
                     Ctor::SetPlayback => x.set_playback_hz_scale(p_k),
-                    Ctor::SetHzToHz => x.set_hz_to_hz(p_k * 1024.0, 1024.0),
+                    Ctor::SetHzToHz => x.set_hz_to_hz(p_k * hzb, hzb),
                     Ctor::SetSampleHz => x.set_sample_hz_scale(p_k),
                     _ => {}
                 }
@@ -391,7 +403,7 @@ where
             Conv::LinearC(x) => {
                 match c.ctor {
                     Ctor::SetPlayback => x.set_playback_hz_scale(p_k),
-                    Ctor::SetHzToHz => x.set_hz_to_hz(p_k * 1024.0, 1024.0),
+                    Ctor::SetHzToHz => x.set_hz_to_hz(p_k * hzb, hzb),
                     Ctor::SetSampleHz => x.set_sample_hz_scale(p_k),
                     _ => {}
                 }
@@ -541,7 +553,7 @@ fn general_param() -> BoxedStrategy<f64> {
 }
 
 pub fn case_strategy(max_out: u64) -> impl Strategy<Value = Case> {
-    (0usize..5, any::<bool>(), prop_oneof![3 => (1u64..60).prop_map(Some), 1 => Just(None)], 0usize..9, any::<bool>(), any::<bool>()).prop_flat_map(move |(f, lin, src_len, ci, exact, drain)| {
+    (0usize..5, any::<bool>(), prop_oneof![3 => (1u64..60).prop_map(Some), 1 => Just(None)], 0usize..9, any::<bool>(), any::<bool>(), proptest::sample::select(HZ_BASES.to_vec())).prop_flat_map(move |(f, lin, src_len, ci, exact, drain, hz_base)| {
         let ctor = CTORS[ci];
         let p = if exact { dyadic_param(ctor) } else { general_param() };
         (proptest::collection::vec(p, 1..6), 1u64..max_out).prop_map(move |(ps, outputs)| Case {
@@ -553,6 +565,7 @@ pub fn case_strategy(max_out: u64) -> impl Strategy<Value = Case> {
             outputs,
             exact,
             drain: drain && src_len.is_some(),
+            hz_base,
         })
     })
 }
@@ -564,7 +577,7 @@ pub fn run(ctx: &mut Ctx) {
          comparison is ==; general regime: arbitrary ratios in [1e-3, 1e3] (incl. 0.1, 1/3, 44100/48000, e) with a derived tolerance; non-trivial: ratio not 1 and not 0.5, or varying ratio, or integer format, or the run reaches exhaustion",
     );
     ctx.assume("reference model holds the position P_n as an exact integer multiple of 2^-64; exact regime: pulls beyond priming == floor(P_n), floor output == source[floor(P_n)], linear output == exact blend (truncated toward zero for integer formats); general regime: pulls in floor(P_n -+ d_n) with d_n = n*2^-51*(1+r_max), floor output consistent with the observed pull count, linear output within |r-l|*d_n + 4 ulp (+1 LSB) of the exact blend and inside the interval spanned by its two frames");
-    ctx.assume("the effective ratio of a constructor/setter is its documented formula evaluated once in f64 (scale; 1/scale; source_hz/target_hz)");
+    ctx.assume("the effective ratio of a constructor/setter is its documented formula evaluated once in f64 (scale; 1/scale; source_hz/target_hz); the hz-pair entry points are called with (p x t, t) for target rates t in {1024, 1, 3, 7, 49, 100, 441, 1000, 11000, 22000, 44000, 44100, 48000, 96000}, p x t exact, so the quotient is exactly p in the exact regime");
     for c in ["ratio > 1", "non-dyadic ratio (general regime)", "varying ratio", "exhaustion reached", "overshoot past the end of the source", "ratio exactly 1"] {
         ctx.require_class(c);
     }
@@ -577,7 +590,7 @@ pub fn run(ctx: &mut Ctx) {
             for len in 1..=8u64 {
                 for kq in 1..=16u32 {
                     for ctor in [Ctor::ScalePlayback, Ctor::MulHz, Ctor::SetHzToHz] {
-                        cases.push(Case { ft, interp: if lin { Interp::Linear } else { Interp::Floor }, src_len: Some(len), ctor, params: vec![(kq as f64 / 4.0).to_bits()], outputs: 60, exact: true, drain: true });
+                        cases.push(Case { ft, interp: if lin { Interp::Linear } else { Interp::Floor }, src_len: Some(len), ctor, params: vec![(kq as f64 / 4.0).to_bits()], outputs: 60, exact: true, drain: true, hz_base: HZ_BASES[(len as usize * 16 + kq as usize) % HZ_BASES.len()] });
                     }
                 }
             }
@@ -586,13 +599,29 @@ pub fn run(ctx: &mut Ctx) {
     let n = cases.len() as u64;
     ctx.par_enumerate("grid-exact-drain", true, n, move |i| cases[i as usize].clone(), check);
 
+    // the hz-pair entry points with every whole-number and quarter ratio up to 200 / 50 over every target rate: the quotient
+    // source_hz / target_hz is exact, so every position is a multiple of 1/4 and whole positions land exactly on a source frame
+    let mut cases = Vec::new();
+    for kq in 1..=200u32 {
+        for &hz_base in &HZ_BASES {
+            for ctor in [Ctor::FromHzToHz, Ctor::SignalFromHz, Ctor::SetHzToHz] {
+                for (lin, quarter) in [(false, false), (true, false), (false, true), (true, true)] {
+                    let p = if quarter { kq as f64 / 4.0 } else { kq as f64 };
+                    cases.push(Case { ft: if lin { FT::F64 } else { FT::I16 }, interp: if lin { Interp::Linear } else { Interp::Floor }, src_len: None, ctor, params: vec![p.to_bits()], outputs: 9, exact: true, drain: false, hz_base });
+                }
+            }
+        }
+    }
+    let n = cases.len() as u64;
+    ctx.par_enumerate("hz-pair-exact-quotients", true, n, move |i| cases[i as usize].clone(), check);
+
     // drift: long runs (general regime), infinite source
     let long: u64 = ctx.pick(20_000, 1_000_000);
     let mut cases = Vec::new();
     for (j, p) in [0.1f64, 1.0 / 3.0, 44100.0 / 48000.0, 0.999999999, 2.5].iter().enumerate() {
-        cases.push(Case { ft: FTS[j % 5], interp: if j % 2 == 0 { Interp::Linear } else { Interp::Floor }, src_len: None, ctor: Ctor::ScalePlayback, params: vec![p.to_bits()], outputs: long, exact: false, drain: false });
+        cases.push(Case { ft: FTS[j % 5], interp: if j % 2 == 0 { Interp::Linear } else { Interp::Floor }, src_len: None, ctor: Ctor::ScalePlayback, params: vec![p.to_bits()], outputs: long, exact: false, drain: false, hz_base: 1024 });
     }
-    cases.push(Case { ft: FT::F64, interp: Interp::Linear, src_len: None, ctor: Ctor::ScalePlayback, params: vec![(1.0f64 / 1024.0).to_bits()], outputs: long, exact: true, drain: false });
+    cases.push(Case { ft: FT::F64, interp: Interp::Linear, src_len: None, ctor: Ctor::ScalePlayback, params: vec![(1.0f64 / 1024.0).to_bits()], outputs: long, exact: true, drain: false, hz_base: 1024 });
     let n = cases.len() as u64;
     ctx.par_enumerate("long-runs-drift", true, n, move |i| cases[i as usize].clone(), check);
     let _ = splitmix(0);
